@@ -259,7 +259,7 @@ class err_handler(object):
         @param err_str: Description of the error
         @type err_str: string
         """
-        if self.cur_gs_node is None:
+        if self.cur_gs_node is None or self.cur_gs_node.is_closed():
             # No enclosing functional group: report on the interchange
             self.isa_error('024', 'GS:%s - %s' % (err_cde, err_str))
             return
@@ -276,7 +276,7 @@ class err_handler(object):
         @param err_str: Description of the error
         @type err_str: string
         """
-        if self.cur_st_node is None:
+        if self.cur_st_node is None or self.cur_st_node.is_closed():
             # No enclosing transaction set: report on the functional group
             self.gs_error('1', 'ST:%s - %s' % (err_cde, err_str))
             return
